@@ -294,7 +294,9 @@ fn check_case(seed: u64, shard: u64, index: u64, out: &mut ShardOut) {
                 Ok(Err(_)) => {
                     if w.failures_injected == 0 {
                         bad = Some(("fault-spurious", format!("save failed before the injected fault at byte {}", p)));
-                    } else if fk != FailKind::HardOnce && (w.data.len() != p || w.data[..] != golden[..p]) {
+                    } else if w.data.len() != p || w.data[..] != golden[..p] {
+                        // (also for a sink that works again after its single failure: whatever the library still sends
+                        // after the failed call would no longer be a prefix of the complete output)
                         bad = Some(("fault-prefix", format!("bytes delivered before the failure at {} are not the golden prefix (delivered {})", p, w.data.len())));
                     }
                 }
